@@ -16,13 +16,13 @@ META = {
     "rule": "state = (model, observable snapshot of the real object) reached by an operation history; transition = "
             "one operation applied to the real object rebuilt by replay; non-trivial = distinct states holding >= 2 "
             "units or reached through remove / merge / copy / reset; outcomes = distinct final container contents",
-    "assumptions": ["alphabet: 2(+1) annotators, segments [0,1] [0,2] [1,2] + zero-length [1,1] + reversed [2,1], "
+    "assumptions": ["alphabet: 2(+1) annotators, segments [0,1] [0,2] [1,2] [-1,3] + zero-length [1,1] + reversed [2,1], "
                     "labels None/x/y", "bounds of an empty continuum after reset_bounds are unspecified",
                     "a reversed segment must either be rejected (state unchanged) or is not followed further"],
     "explanation": "explicit-state BFS over operation histories with a reference model compared after every step",
 }
 
-SEGS = [(0, 1), (0, 2), (1, 2)]
+SEGS = [(0, 1), (0, 2), (1, 2), (-1, 3)]  # (-1, 3) sticks out of (0, 0) and of every reset extent on BOTH sides
 BAD_SEGS = [(1, 1), (2, 1)]
 LABELS = [None, "x", "y"]
 FIXED_OTHER = [("add", "b", 0, 2, "y"), ("add", "c", 1, 2, None)]
